@@ -52,6 +52,11 @@ def _h8(s: str) -> int:
     return int.from_bytes(hashlib.blake2b(s.encode(), digest_size=8).digest(), "big")
 
 
+def out_root() -> str:
+    """Where evidence/ and replays/ go: /verif, unless a sensitivity (mutant) run redirects them."""
+    return os.environ.get("VERIF_OUT_DIR") or env.VERIF_ROOT
+
+
 def load_known(prop: str):
     p = os.path.join(env.VERIF_ROOT, "known_findings.json")
     try:
@@ -157,7 +162,7 @@ def _worker(args):
 
 # ---------------------------------------------------------------------------------- main entry
 def write_replay(mod, v: dict, seed: int) -> str:
-    d = os.path.join(env.VERIF_ROOT, "replays", mod.ID)
+    d = os.path.join(out_root(), "replays", mod.ID)
     os.makedirs(d, exist_ok=True)
     sig_h = hashlib.sha256(v["signature"].encode()).hexdigest()[:10]
     path = os.path.join(d, f"{sig_h}-{seed}-{v['index']}.json")
@@ -377,8 +382,8 @@ def run_check(mod, tier: str) -> int:
         "assumptions": list(getattr(mod, "ASSUMPTIONS", [])), "wall_s": round(wall, 2),
         "violations": len(new_viols),
     }
-    os.makedirs(os.path.join(env.VERIF_ROOT, "evidence"), exist_ok=True)
-    with open(os.path.join(env.VERIF_ROOT, "evidence", f"{mod.ID}.json"), "w") as f:
+    os.makedirs(os.path.join(out_root(), "evidence"), exist_ok=True)
+    with open(os.path.join(out_root(), "evidence", f"{mod.ID}.json"), "w") as f:
         json.dump(ev, f, indent=1, sort_keys=True, default=_json_default)
     print(f"[{mod.ID}] runs={runs} evaluations={evals} distinct_nontrivial={len(keys)} "
           f"violations(new)={len(new_viols)} known={len(known_hit)} wall={wall:.1f}s")
